@@ -4,6 +4,7 @@ From HTA.lib Require Import Base Cells Intervals Sweep.
 From HTA.model Require Import C04_Model C07_Model.
 From HTA.gen Require Import KernelRules_gen.
 From HTA.proof Require Import KernelRulesTie C04_Proofs C07_Proofs.
+From HTA.proof Require Import Scale C04_Scale C07_Scale.
 
 (* For EVERY ts-sorted permutation A', B' of the communication / computation intervals and EVERY
    time-sorted permutation R' of the +-1 / +-2 status rows (ties inside an instant in any order):
@@ -62,3 +63,9 @@ Theorem C07_kernel_types_follow_source : forall n,
   ktype_code (get_kernel_type n) = kernel_type_gen (is_comm_kernel n) (is_memory_kernel n) (is_compute_kernel n).
 Proof. exact kernel_type_is_generated. Qed.
 Print Assumptions C07_kernel_types_follow_source.
+
+(* resolution independence: times multiplied by k > 0 multiply numerator and denominator by k -- the ratio is unchanged *)
+Theorem C07_resolution_independent : forall k l, 0 < k ->
+  model_C07 (scale_evs k l) = (k * fst (model_C07 l), k * snd (model_C07 l)).
+Proof. exact C07_scale. Qed.
+Print Assumptions C07_resolution_independent.
